@@ -64,3 +64,12 @@ package crdt
 //@   requires c != nil && c.Mast != nil
 //@   modifies nothing
 //@   ensures result == mastSize(*c.Mast)
+
+// MakeRoot: flush, then describe the version; effects as mast's MakeRoot.
+//@ func (*Tree).MakeRoot
+//@   requires c != nil && c.Mast != nil
+//@   modifies *c.Mast, puts, lastPutPrefix, lastPutName, lastPutOK
+//@   ensures puts >= old(puts) && deletes == old(deletes)
+//@   ensures imp(err == nil, result0 != nil && fresh(result0) && !mastDirty(*c.Mast) && result0.Created == c.Created && result0.MergeSources == c.MergeSources && result0.MergeMode == c.MergeMode)
+//@   ensures imp(err != nil, result0 == nil)
+//@   ensures forall a int :: imp(err == nil, has(T(*c.Mast), a) == old(has(T(*c.Mast), a)) && T(*c.Mast)[a] == old(T(*c.Mast)[a]))
